@@ -247,6 +247,7 @@ def do_check(prop, tier, args):
                 violations.append((p, v))
     if tier == "quick":
         n_runs = int(args.runs or QUICK_RUNS.get(prop, 4000))
+        n_runs = max(50, n_runs // int(os.environ.get("VERIF_RUNS_DIV", 1)))
         deadline = t0 + float(os.environ.get("VERIF_BUDGET_S", 240))
         agg = run_batch(prop, tier, base, n_runs, deadline, workers)
     else:
